@@ -1,14 +1,43 @@
-(** Property C04 — statements only. Each theorem is closed by [exact] of a lemma
-    proved elsewhere and followed by [Print Assumptions]. *)
-From CR Require Import Base Atomic Machine LinksFacts HeapFacts TraceFacts Local.
+(** Property C04 — destroyed objects return all memory. *)
+From Coq Require Import Permutation.
+From CR Require Import Base Atomic Machine LinksFacts HeapFacts TraceFacts TraceTotal Local StackBound
+  Termination Perm StdRc StdRefine Tokens InvDef InvLemmas ActBase ActHandles ActAdopt ActMove ActConsume
+  StepFrames StepPanic Purge GroupOps DropDec Group DropLast StepInv RunInv Consequences Common.
 Local Open Scope N_scope.
 
-Theorem C04_last_weak_releases_partial :
+(** once the value is destroyed, at a call boundary, with nothing leaked by a
+    panic and no Weak handle left: the allocation is released, the table is
+    gone (its storage dropped) and the value is gone *)
+Theorem C04_destroyed_objects_are_released :
+  forall s o b, Inv s [] -> nth_error (heap_of s) o = Some b -> live b = false ->
+  n_leak o (log s) = 0 -> w_held (sw_weak o) s = 0 ->
+  freed b = true /\ links b = None /\ value b = None.
+Proof. exact destroyed_released. Qed.
+Print Assumptions C04_destroyed_objects_are_released.
+
+(** pointwise, in every configuration: the bare allocation survives exactly as
+    long as a Weak handle, a pending teardown step or a leaked teardown needs it *)
+Theorem C04_allocation_survives_iff_needed :
+  forall s k o b, Inv s k -> nth_error (heap_of s) o = Some b ->
+  (freed b = true <->
+   live b = false /\ W (sw_weak o) s k = 0 /\ n_after o k + n_fin o k + n_leak o (log s) = 0).
+Proof. exact freed_iff. Qed.
+Print Assumptions C04_allocation_survives_iff_needed.
+
+Theorem C04_last_weak_releases :
   forall h o b h',
   getb h o = Ok b -> weak_drop h (Some o) = Ok h' ->
   0 < weak b /\
   h' = setb h o (if (weak b - 1 =? 0) then with_freed (with_weak b (weak b - 1)) true
                  else with_weak b (weak b - 1)).
 Proof. exact weak_drop_spec. Qed.
-Print Assumptions C04_last_weak_releases_partial.
+Print Assumptions C04_last_weak_releases.
 
+(** every teardown path keeps the accounting: plain last-handle drop and zero
+    count with adoptions (C03_last_drop_destroys), member of a collected group
+    (C01_orphan_test_sound), try_unwrap and make_mut (C12), each followed by the
+    finish steps of Inv/StepFrames.v — all inside [step_inv] *)
+Theorem C04_all_paths_keep_the_accounting :
+  forall pri c, Inv_cfg c -> step_hyp c -> step_goal c (step pri c).
+Proof. exact step_inv. Qed.
+Print Assumptions C04_all_paths_keep_the_accounting.
